@@ -141,6 +141,9 @@ func (p *Program) carriers(prop string) (proved []string, boundedOnly []string) 
 			if _, isSpec := p.SpecFuncs[key]; isSpec && !c.Lemma {
 				continue
 			}
+			if c.Trusted {
+				continue
+			}
 			_ = fn
 			if !seen[key] {
 				seen[key] = true
